@@ -294,6 +294,22 @@ Theorem C16_snapped_cells_on_grid :
       on_grid (2 ^ e) (Z.max (Z.abs cx) (Z.max (Z.abs cy) (Z.abs cz)) + w) bx.
 Proof. intros. apply snapped_cells_on_grid; auto. Qed.
 
+(* the two arithmetic helpers of the snapped grid mean what the numpy calls mean: snap_lw M is the
+   smallest power of two >= 0.51 * M (2.0 ** np.ceil(np.log2(0.51 * M))), round_half_even n d is a
+   nearest integer to n / d and the even one on a tie (np.round) *)
+Theorem C16_snap_grid_spec :
+  (forall M, 1 <= M -> exists e, 0 <= e /\ snap_lw M = 2 ^ e /\ 51 * M <= 100 * snap_lw M /\
+      forall e', 0 <= e' -> 51 * M <= 100 * 2 ^ e' -> snap_lw M <= 2 ^ e') /\
+  (forall n d, 0 < d -> let k := round_half_even n d in
+      2 * d * k - d <= 2 * n <= 2 * d * k + d /\
+      ((2 * n = 2 * d * k + d \/ 2 * n = 2 * d * k - d) -> Z.even k = true)).
+Proof.
+  split.
+  - intros M HM. destruct (snap_lw_spec M HM) as (e & He & E1 & E2).
+    exists e. repeat split; auto. intros e' He' H. apply snap_lw_smallest; auto.
+  - intros n d Hd k. split. { apply round_half_even_near; auto. } apply round_half_even_tie; auto.
+Qed.
+
 (* non-vacuity: a point set far from the origin, with ties and a point on the root centre plane;
    extent 10 -> w0 = 8 = 2^3, scaled half width 256 * 8, 4 + 8 * 7 .. cells *)
 Definition snap_pts : list P :=
@@ -406,3 +422,4 @@ Print Assumptions C16_gen_bounds_sound.
 Print Assumptions C16_knn_translated_search_correct.
 Print Assumptions C16_knn_on_snapped_octree.
 Print Assumptions C16_snapped_cells_on_grid.
+Print Assumptions C16_snap_grid_spec.
